@@ -19,6 +19,12 @@
 //	        their argument forms (and the document cut by an object) one after the other in ONE directory
 //	{"op":"bind","repo":path}     the type IDs declared in <repo>/schema (binding check of Codegen!TypeIDs)
 //
+// Every case may carry "deco" (Codegen!Decos: the attributes the rendered schema file carries besides
+// names, type IDs and ids - min/max, pattern, units, default, required, display, relations, examples;
+// the expectation does not depend on it: AttributeBlind) and "route" (Codegen!Routes: the pre-built
+// binary, a copy of it at another path, by a relative path, or "go run gen.go ..." in a copy of the
+// source directory given with -gensrc; the observation must not depend on it: InvocationBlind).
+//
 // Byte-level facts are decided here with the Go toolchain (exit status, panic, go/parser,
 // go/format, SHA-256 over the bytes); which structs / fields / tags / types must be there is
 // decided by the specification (exp of a vector, CodegenTrace for logged lines).
@@ -47,6 +53,7 @@ import (
 	"sort"
 	"strconv"
 	"strings"
+	"sync"
 	"time"
 	"unicode"
 
@@ -57,6 +64,7 @@ import (
 
 var genBin = flag.String("gen", "", "path of the arcaflow-codegen binary under test")
 var workDir = flag.String("work", "", "directory for the per-input temporary directories")
+var genSrc = flag.String("gensrc", "", "private copy of the generator's source directory (gen.go, go.mod, go.sum): route go_run")
 
 // ------------------------------------------------------------------ shapes shared with the specification
 
@@ -112,6 +120,8 @@ type caseT struct {
 	Args     argsT  `json:"args"`
 	Prev     *prevT `json:"prev"`
 	Schema   string `json:"schema"` // vector of a used directory: "untouched" | "replaced" ("written": fresh)
+	Deco     string `json:"deco"`   // Codegen!Decos: the attributes the schema file carries besides ("" = bare)
+	Route    string `json:"route"`  // Codegen!Routes: how the generator is invoked ("" = binary)
 	Shape    string `json:"shape"`
 	Sat      *bool  `json:"sat"`
 	Exp      *expT  `json:"exp"`
@@ -159,6 +169,9 @@ type resT struct {
 	Over        map[string]int   `json:"over,omitempty"`         // runs over an existing output file, by length relation
 	OverSkipped int              `json:"over_skipped,omitempty"` // ... not judged: the earlier run left no file / the fresh run fails
 	Reruns      int              `json:"reruns,omitempty"`       // runs over the output of the same input
+	Attrs       map[string]int   `json:"attrs,omitempty"`        // attributes written into the schema files, by kind
+	Routes      map[string]int   `json:"routes,omitempty"`       // runs by route other than the pre-built binary
+	Hash        string           `json:"hash,omitempty"`         // vec in a fresh directory: SHA-256 of the first clean output
 }
 
 // ------------------------------------------------------------------ name attributes (independent of the generator)
@@ -388,7 +401,132 @@ func typeExtras(tid string) [][2]string {
 	return nil
 }
 
-func renderBlock(doc []objT, noise bool) string {
+// ------------------------------------------------------------------ attribute decorations (Codegen!Decos)
+// What a real schema description carries besides object names, property names, type IDs and ids.
+// Values are written in YAML flow syntax, so that the block and the flow renderer can both use
+// them.  The generator's contract ignores all of it (Codegen!AttributeBlind).
+
+var decoNames = []string{"bare", "limits", "attributes", "full"}
+
+// attribute keys of the SDK's schema (checked against <repo>/schema by op "bind")
+var attrKeys = []string{"min", "max", "pattern", "units", "default", "required", "required_if", "required_if_not",
+	"conflicts", "examples", "display", "description", "icon", "items", "keys", "values", "discriminator_field_name"}
+
+const unitsBytes = `{base_unit: {name_short_singular: B, name_short_plural: B, name_long_singular: byte, name_long_plural: bytes}, ` +
+	`multipliers: {1024: {name_short_singular: kB, name_short_plural: kB, name_long_singular: kilobyte, name_long_plural: kilobytes}}}`
+
+type kvs = [][2]string
+
+// decorate returns the attributes of property i of o under deco: those of the property, those of
+// its type mapping, and the kinds of attribute written (for the coverage report).
+func decorate(deco string, o objT, i int) (prop, typ kvs, tags []string) {
+	p := o.Props[i]
+	limits := deco == "limits" || deco == "full"
+	attrs := deco == "attributes" || deco == "full"
+	tag := func(t string) { tags = append(tags, t) }
+	if limits {
+		switch p.Tid {
+		case "integer":
+			switch i % 3 {
+			case 0:
+				typ = kvs{{"min", "-10"}, {"max", "10"}}
+				tag("integer_min_negative")
+			case 1:
+				typ = kvs{{"min", "0"}, {"max", "0"}}
+				tag("integer_limits_zero")
+			default:
+				typ = kvs{{"min", "-9223372036854775808"}, {"max", "-1"}}
+				tag("integer_max_negative")
+			}
+			if deco == "full" {
+				typ = append(typ, [2]string{"units", unitsBytes})
+				tag("units")
+			}
+		case "float":
+			switch i % 3 {
+			case 0:
+				typ = kvs{{"min", "-0.5"}, {"max", "1.5e+3"}}
+				tag("float_min_negative_fraction")
+			case 1:
+				typ = kvs{{"min", "0.0"}, {"max", "0.25"}}
+				tag("float_limits_zero_fraction")
+			default:
+				typ = kvs{{"min", "-1.0e+300"}, {"max", "-2"}}
+				tag("float_max_negative")
+			}
+			if deco == "full" {
+				typ = append(typ, [2]string{"units", unitsBytes})
+				tag("units")
+			}
+		case "string":
+			typ = kvs{{"min", strconv.Itoa(i % 2)}, {"max", "256"}, {"pattern", `"^[a-z]+$"`}}
+			tag("string_size_pattern")
+		case "pattern":
+		case "list":
+			typ = kvs{{"items", "{type_id: integer, min: -3}"}, {"min", "1"}, {"max", "3"}}
+			tag("list_size")
+		case "map":
+			typ = kvs{{"keys", "{type_id: string, max: 8}"}, {"values", "{type_id: float, min: -0.5}"}, {"min", "0"}, {"max", "10"}}
+			tag("map_size")
+		case "enum_string":
+			typ = kvs{{"values", "{a: {name: A}, b: {name: B}}"}}
+		case "enum_integer":
+			typ = kvs{{"values", "{-1: {name: Minus}, 1: {name: One}}"}}
+			tag("enum_negative_value")
+		case "object":
+			typ = kvs{{"properties", "{}"}}
+		case "one_of_string", "one_of_int":
+			typ = kvs{{"discriminator_field_name", "kind"}, {"types", "{}"}}
+		case "ref":
+			typ = kvs{{"display", "{name: Linked}"}}
+		}
+	}
+	if attrs {
+		prop = append(prop, [2]string{"display", "{name: " + strconv.Quote("The "+p.Name) + ", description: " +
+			strconv.Quote("first line\nsecond: line # not a comment\n\ttype: not a type\n") + ", icon: \"<svg/>\"}"})
+		tag("display_multiline")
+		prop = append(prop, [2]string{"required", strconv.FormatBool(i%2 == 0)})
+		switch p.Tid {
+		case "integer":
+			prop = append(prop, [2]string{"default", `"-5"`}, [2]string{"examples", `["-3", "7"]`})
+			tag("default_negative")
+		case "float":
+			prop = append(prop, [2]string{"default", `"-0.5"`}, [2]string{"examples", `["-1.5e-3"]`})
+			tag("default_negative")
+		case "string", "pattern":
+			prop = append(prop, [2]string{"default", strconv.Quote(`"abc"`)}, [2]string{"examples", "[" + strconv.Quote(`"a: b"`) + "]"})
+		case "bool":
+			prop = append(prop, [2]string{"default", `"true"`})
+		}
+		if n := len(o.Props); n > 1 {
+			a, b := strconv.Quote(o.Props[(i+1)%n].Name), strconv.Quote(o.Props[(i+n-1)%n].Name)
+			switch i % 3 {
+			case 0:
+				prop = append(prop, [2]string{"required_if", "[" + a + "]"}, [2]string{"conflicts", "[]"})
+			case 1:
+				prop = append(prop, [2]string{"required_if_not", "[" + a + ", " + b + "]"})
+			default:
+				prop = append(prop, [2]string{"conflicts", "[" + b + "]"}, [2]string{"required_if", "[]"})
+			}
+			tag("relations")
+		}
+	}
+	return prop, typ, tags
+}
+
+// attrKinds: the kinds of attribute a rendering of doc under deco writes
+func attrKinds(doc []objT, deco string) []string {
+	var all []string
+	for _, o := range doc {
+		for i := range o.Props {
+			_, _, t := decorate(deco, o, i)
+			all = append(all, t...)
+		}
+	}
+	return all
+}
+
+func renderBlock(doc []objT, noise bool, deco string) string {
 	var b strings.Builder
 	if noise {
 		b.WriteString("# generated schema document\nversion: v0.2.0\n")
@@ -415,7 +553,14 @@ func renderBlock(doc []objT, noise bool) string {
 		b.WriteString("          properties:\n")
 		for i, p := range o.Props {
 			b.WriteString("            " + q(p.Name) + ":\n")
-			if noise && i%2 == 0 {
+			pa, ta, _ := decorate(deco, o, i)
+			legacy := noise && deco == "bare" // (the attributes of the noise style, where no decoration writes them)
+			if i%2 == 0 {
+				for _, kv := range pa {
+					b.WriteString("              " + kv[0] + ": " + kv[1] + "\n")
+				}
+			}
+			if legacy && i%2 == 0 {
 				b.WriteString("              display:\n                name: " + strconv.Quote("The "+p.Name) +
 					"\n                description: |\n                  type: not a type\n                  objects: none\n")
 				b.WriteString("              required: " + strconv.FormatBool(i%4 == 0) + "\n")
@@ -429,9 +574,17 @@ func renderBlock(doc []objT, noise bool) string {
 			if p.Ref != "" && i%2 == 0 {
 				b.WriteString("                id: " + q(p.Ref) + "\n")
 			}
-			if noise {
+			if legacy {
 				for _, kv := range typeExtras(p.Tid) {
 					b.WriteString("                " + kv[0] + ": " + kv[1] + "\n")
+				}
+			}
+			for _, kv := range ta {
+				b.WriteString("                " + kv[0] + ": " + kv[1] + "\n")
+			}
+			if i%2 == 1 { // (the attributes of the property after its type as well as before it)
+				for _, kv := range pa {
+					b.WriteString("              " + kv[0] + ": " + kv[1] + "\n")
 				}
 			}
 		}
@@ -445,7 +598,7 @@ func renderBlock(doc []objT, noise bool) string {
 	return b.String()
 }
 
-func renderFlow(doc []objT) string {
+func renderFlow(doc []objT, deco string) string {
 	var b strings.Builder
 	b.WriteString("{\"steps\": {\"create\": {\"id\": \"create\", \"input\": {\"objects\": {")
 	for i, o := range doc {
@@ -457,11 +610,19 @@ func renderFlow(doc []objT) string {
 			if k > 0 {
 				b.WriteString(", ")
 			}
+			pa, ta, _ := decorate(deco, o, k)
 			b.WriteString(strconv.Quote(p.Name) + ": {\"type\": {\"type_id\": " + strconv.Quote(p.Tid))
 			if p.Ref != "" {
 				b.WriteString(", \"id\": " + strconv.Quote(p.Ref))
 			}
-			b.WriteString("}}")
+			for _, kv := range ta {
+				b.WriteString(", " + strconv.Quote(kv[0]) + ": " + kv[1])
+			}
+			b.WriteString("}")
+			for _, kv := range pa {
+				b.WriteString(", " + strconv.Quote(kv[0]) + ": " + kv[1])
+			}
+			b.WriteString("}")
 		}
 		b.WriteString("}}")
 	}
@@ -469,14 +630,17 @@ func renderFlow(doc []objT) string {
 	return b.String()
 }
 
-func render(doc []objT, style string) string {
+func render(doc []objT, style, deco string) string {
+	if deco == "" {
+		deco = "bare"
+	}
 	switch style {
 	case "flow":
-		return renderFlow(doc)
+		return renderFlow(doc, deco)
 	case "noise":
-		return renderBlock(doc, true)
+		return renderBlock(doc, true, deco)
 	}
-	return renderBlock(doc, false)
+	return renderBlock(doc, false, deco)
 }
 
 // checkRender parses the text back with yaml.v3 (generic maps) and compares with the document.
@@ -561,6 +725,8 @@ func classifyPanic(stderr string) (cause, frame string) {
 		cause = "index_out_of_range"
 	case strings.Contains(stderr, "nil pointer dereference"):
 		cause = "nil_deref"
+	case strings.Contains(stderr, "panic: yaml:"):
+		cause = "yaml_unmarshal" // the decoder refused the schema file
 	case reFmtErr.MatchString(stderr):
 		cause = "format_source"
 	case strings.Contains(stderr, "fatal error:"):
@@ -580,7 +746,54 @@ func classifyPanic(stderr string) (cause, frame string) {
 
 // runOnce runs the generator in dir.  keep = false: typedef_output.go is removed first (as far as
 // the output file goes a fresh directory); keep = true: the run finds what the directory holds.
-func runOnce(dir string, args argsT, keep bool) runObs {
+func runOnce(dir string, args argsT, keep bool) runObs { return runVia("binary", dir, args, keep) }
+
+// ------------------------------------------------------------------ invocation routes (Codegen!Routes)
+// "binary": the pre-built binary by its absolute path.  "binary_copy": a copy of it in another
+// directory (the same file name: gen).  "binary_relative": that copy by a path relative to the
+// working directory.  "go_run": the documented "go run gen.go schema_input.yaml [ARG]" in a copy of
+// the generator's source directory (argv[0] is a fresh temporary executable on every run).
+
+var altOnce sync.Once
+var altPath string
+
+func altBin() string {
+	altOnce.Do(func() {
+		dir, err := os.MkdirTemp(*workDir, "alt-bin-")
+		if err != nil {
+			panic("temp dir: " + err.Error())
+		}
+		b, err := os.ReadFile(*genBin)
+		if err != nil {
+			panic("read generator binary: " + err.Error())
+		}
+		altPath = filepath.Join(dir, filepath.Base(*genBin))
+		if err := os.WriteFile(altPath, b, 0o755); err != nil {
+			panic("copy generator binary: " + err.Error())
+		}
+	})
+	return altPath
+}
+
+func command(ctx context.Context, route, dir string, argv []string) *exec.Cmd {
+	switch route {
+	case "", "binary":
+		return exec.CommandContext(ctx, *genBin, argv...)
+	case "binary_copy":
+		return exec.CommandContext(ctx, altBin(), argv...)
+	case "binary_relative":
+		rel, err := filepath.Rel(dir, altBin())
+		if err != nil || filepath.IsAbs(rel) {
+			panic("no relative path from " + dir + " to " + altBin())
+		}
+		return exec.CommandContext(ctx, rel, argv...) // evaluated relative to cmd.Dir
+	case "go_run":
+		return exec.CommandContext(ctx, "go", append([]string{"run", "gen.go"}, argv...)...)
+	}
+	panic("unknown route " + route)
+}
+
+func runVia(route, dir string, args argsT, keep bool) runObs {
 	var o runObs
 	outPath := filepath.Join(dir, "typedef_output.go")
 	if !keep {
@@ -590,9 +803,13 @@ func runOnce(dir string, args argsT, keep bool) runObs {
 	if args.Form == "with_ignore" {
 		argv = append(argv, args.Ign)
 	}
-	ctx, cancel := context.WithTimeout(context.Background(), 20*time.Second)
+	limit := 20 * time.Second
+	if route == "go_run" {
+		limit = 180 * time.Second // compiles and links
+	}
+	ctx, cancel := context.WithTimeout(context.Background(), limit)
 	defer cancel()
-	cmd := exec.CommandContext(ctx, *genBin, argv...)
+	cmd := command(ctx, route, dir, argv)
 	cmd.Dir = dir
 	var env []string
 	for _, e := range os.Environ() {
@@ -1048,7 +1265,15 @@ func (r *resT) miss(class, detail string, c inputT, info map[string]any, drift b
 	info["ignore"] = c.args.Ign
 	cs := map[string]any{
 		"op": c.op, "doc": c.doc, "args": c.args, "style": c.style, "runs": c.runs,
-		"shape": c.shape, "sat": c.sat, "exp": c.exp,
+		"shape": c.shape, "sat": c.sat, "exp": c.exp, "deco": c.deco, "route": c.route,
+	}
+	info["deco"] = c.deco
+	if c.blame != "" {
+		// the same document and arguments without the attributes run clean: the attributes did it
+		sig["deco"] = c.blame
+	}
+	if c.route != "" && c.route != "binary" {
+		sig["route"] = c.route
 	}
 	if c.prev != nil {
 		// a run over the output file an earlier run has left: another defect class than the same
@@ -1077,6 +1302,9 @@ type inputT struct {
 	// only the arguments differ) or "replaced"; wantSchema is the specification's word for it
 	schema     string
 	wantSchema string
+	deco       string // Codegen!Decos: the attributes the schema file carries ("" = "bare")
+	route      string // Codegen!Routes: how the generator is invoked ("" = "binary")
+	blame      string // set on a failure: deco, if the bare rendering of the same input runs clean
 }
 
 func satisfiable(doc []objT, args argsT) bool {
@@ -1100,8 +1328,48 @@ func (o *runObs) clean() bool {
 func traceLine(c inputT, run int, rel string, o *runObs) map[string]any {
 	return map[string]any{
 		"ev": "run", "inp": c.inp, "run": run, "doc": c.doc, "args": c.args, "style": c.style,
-		"runs": c.runs, "structs": o.Structs, "hash": o.Hash, "rel": rel,
+		"runs": c.runs, "structs": o.Structs, "hash": o.Hash, "rel": rel, "deco": decoOf(c), "route": routeOf(c),
 	}
+}
+
+func decoOf(c inputT) string {
+	if c.deco == "" {
+		return "bare"
+	}
+	return c.deco
+}
+
+func routeOf(c inputT) string {
+	if c.route == "" {
+		return "binary"
+	}
+	return c.route
+}
+
+// blameDeco: a failure of a decorated input is the attributes' doing (Codegen!AttributeBlind) if
+// the bare rendering of the same document runs clean with the same arguments - and, where the
+// specification's expectation is at hand, meets it.
+func blameDeco(c inputT, r *resT) string {
+	if decoOf(c) == "bare" {
+		return ""
+	}
+	b := c
+	b.deco = "bare"
+	w := newWorkdir()
+	defer w.close()
+	w.put(b)
+	o := w.run(b.args, false)
+	r.Evals++
+	if !o.clean() {
+		return ""
+	}
+	if c.exp != nil {
+		assignKeys(o.Structs, c.doc)
+		if cl, _ := structVerdict(c.doc, c.args, c.exp.Structs, o.Structs); cl != "ok" {
+			return ""
+		}
+	}
+	return c.deco
 }
 
 // runInput runs one input c.runs times in a private directory and returns the first clean
@@ -1109,17 +1377,25 @@ func traceLine(c inputT, run int, rel string, o *runObs) map[string]any {
 // directory); the odd runs find the output of the run before (the same input run again in place).
 func runInput(c inputT, r *resT) *runObs {
 	r.Inputs++
-	text := render(c.doc, c.style)
+	text := render(c.doc, c.style, c.deco)
 	if err := checkRender(c.doc, text); err != nil {
 		panic("rendering: " + err.Error())
 	}
 	w := newWorkdir()
 	defer w.close()
 	w.put(c)
+	if r.Attrs == nil {
+		r.Attrs = map[string]int{}
+	}
+	r.Attrs["deco_"+decoOf(c)]++
+	for _, t := range attrKinds(c.doc, decoOf(c)) {
+		r.Attrs[t]++
+	}
 	var first *runObs
 	variants := map[string]bool{}
 	logged := map[string]bool{}
 	reported := map[string]bool{}
+	blamed, blame := false, ""
 	once := func(class, detail string, info map[string]any, drift bool) {
 		k := class + "/" + detail
 		if reported[k] {
@@ -1127,7 +1403,14 @@ func runInput(c inputT, r *resT) *runObs {
 		}
 		reported[k] = true
 		info["yaml"] = text
-		r.miss(class, detail, c, info, drift)
+		cc := c
+		if !drift && class != "nondeterministic_bytes" && decoOf(c) != "bare" {
+			if !blamed {
+				blamed, blame = true, blameDeco(c, r)
+			}
+			cc.blame = blame
+		}
+		r.miss(class, detail, cc, info, drift)
 	}
 	failures := 0
 	outcome := "ok"
@@ -1231,8 +1514,52 @@ func runInput(c inputT, r *resT) *runObs {
 	if len(variants) > r.MaxVariants {
 		r.MaxVariants = len(variants)
 	}
-	r.Keys = append(r.Keys, fmt.Sprintf("%s/%s/%s/%s/%s", docKey(c.doc), nameKind(c.doc), c.args.Form, ignKind(c.doc, c.args), outcome))
+	r.Keys = append(r.Keys, fmt.Sprintf("%s/%s/%s/%s/%s/%s", docKey(c.doc), nameKind(c.doc), c.args.Form, ignKind(c.doc, c.args),
+		decoOf(c), outcome))
+	if first != nil && c.op == "vec" {
+		r.Hash = first.Hash
+	}
 	return first
+}
+
+// runRoute: the input under another invocation route (Codegen!InvocationBlind).  The reference
+// is a run by the pre-built binary in a fresh directory; every run under the route - each in a
+// fresh directory - must finish, meet the expectation and give the reference's bytes.
+func runRoute(c inputT, times int, r *resT) {
+	if r.Routes == nil {
+		r.Routes = map[string]int{}
+	}
+	w := newWorkdir()
+	defer w.close()
+	w.put(c)
+	ref := w.run(c.args, false)
+	r.Evals++
+	if !ref.clean() {
+		r.Routes["not_judged"]++ // the plain vector of this input reports it
+		return
+	}
+	assignKeys(ref.Structs, c.doc)
+	outcome := "ok"
+	for k := 0; k < times && outcome == "ok"; k++ {
+		rw := newWorkdir()
+		rw.route = c.route
+		if c.route == "go_run" {
+			rw.copySources()
+		}
+		rw.put(c)
+		o := rw.run(c.args, false)
+		rw.close()
+		r.Evals++
+		r.Routes[c.route]++
+		assignKeys(o.Structs, c.doc)
+		outcome = judgeOver(c, &o, &ref, "invocation", "", r)
+		if c.exp == nil && o.clean() {
+			// explicit document: logged for CodegenTrace, whose record of this input knows no route
+			r.Trace = append(r.Trace, traceLine(c, 2000+k, "fresh", &o))
+		}
+	}
+	r.Keys = append(r.Keys, fmt.Sprintf("route/%s/%s/%s/%s/%s/%s", docKey(c.doc), nameKind(c.doc), c.args.Form,
+		ignKind(c.doc, c.args), c.route, outcome))
 }
 
 // ------------------------------------------------------------------ a used directory
@@ -1257,7 +1584,7 @@ func relOf(found, fresh int) string {
 // clean observation of the same input in a fresh directory.  The first divergence is reported
 // (op run_over_existing, detail = rel); the returned outcome names it.
 func judgeOver(c inputT, o, ref *runObs, rel, found string, r *resT) string {
-	text := render(c.doc, c.style)
+	text := render(c.doc, c.style, c.deco)
 	miss := func(class string, info map[string]any) string {
 		info["yaml"] = text
 		info["found_in_directory"] = found
@@ -1310,6 +1637,33 @@ type workdir struct {
 	dir  string
 	text string // what schema_input.yaml holds ("": not written yet)
 	ran  bool   // a run has finished normally since the schema file was last written
+	// how the generator is invoked here ("" = the pre-built binary)
+	route string
+}
+
+// copySources puts the generator's sources (gen.go, go.mod, go.sum) into the directory: the
+// documented invocation is "go run gen.go schema_input.yaml [ARG]" in the source directory.
+func (w *workdir) copySources() {
+	if *genSrc == "" {
+		panic("route go_run needs -gensrc")
+	}
+	ents, err := os.ReadDir(*genSrc)
+	if err != nil {
+		panic("read generator sources: " + err.Error())
+	}
+	for _, e := range ents {
+		n := e.Name()
+		if e.IsDir() || strings.HasSuffix(n, "_test.go") || !(strings.HasSuffix(n, ".go") || n == "go.mod" || n == "go.sum") {
+			continue
+		}
+		b, err := os.ReadFile(filepath.Join(*genSrc, n))
+		if err != nil {
+			panic("read generator sources: " + err.Error())
+		}
+		if err := os.WriteFile(filepath.Join(w.dir, n), b, 0o644); err != nil {
+			panic("copy generator sources: " + err.Error())
+		}
+	}
 }
 
 func newWorkdir() *workdir            { return &workdir{dir: tempDir()} }
@@ -1326,7 +1680,7 @@ func setMtime(path string, t time.Time) {
 // put makes schema_input.yaml hold the document of c; it returns "untouched" when the file holds
 // it already (and is left alone), "written" / "replaced" otherwise.
 func (w *workdir) put(c inputT) string {
-	text := render(c.doc, c.style)
+	text := render(c.doc, c.style, c.deco)
 	if err := checkRender(c.doc, text); err != nil {
 		panic("rendering: " + err.Error())
 	}
@@ -1362,7 +1716,7 @@ func (w *workdir) run(args argsT, keep bool) runObs {
 			setMtime(w.schemaPath(), out.ModTime().Add(-time.Second))
 		}
 	}
-	o := runOnce(w.dir, args, keep)
+	o := runVia(w.route, w.dir, args, keep)
 	if !o.Hang && !o.Panic && o.Exit == 0 && o.HasOut {
 		w.ran = true
 	}
@@ -1389,7 +1743,7 @@ func runSeq(c inputT, r *resT) {
 	}
 	used := newWorkdir()
 	defer used.close()
-	p := inputT{op: "seq", doc: c.prev.Doc, args: c.prev.Args, style: c.style}
+	p := inputT{op: "seq", doc: c.prev.Doc, args: c.prev.Args, style: c.style, deco: c.deco}
 	used.put(p)
 	po := used.run(p.args, false)
 	r.Evals++
@@ -1713,6 +2067,7 @@ func runRand(c caseT, r *resT) {
 	for d := 0; d < c.Count; d++ {
 		doc := genDoc(rng, c.MaxObjs, c.MaxProps)
 		style := styles[rng.Intn(len(styles))]
+		deco := decoNames[rng.Intn(len(decoNames))]
 		used := map[string]bool{}
 		for _, o := range doc {
 			used[fold(o.Name)] = true
@@ -1727,7 +2082,7 @@ func runRand(c caseT, r *resT) {
 				panic("generated document violates the premise: " + e)
 			}
 			return inputT{op: "doc", doc: doc, args: args, style: style, runs: runs, shape: shapeOf(doc),
-				sat: satisfiable(doc, args), inp: fmt.Sprintf("%d/%d/%s", c.Seed, d, tag)}
+				sat: satisfiable(doc, args), inp: fmt.Sprintf("%d/%d/%s", c.Seed, d, tag), deco: deco}
 		}
 		var ins []inputT
 		for a, args := range forms {
@@ -1752,6 +2107,18 @@ func runRand(c caseT, r *resT) {
 			steps = append(steps, in, ins[0])
 		}
 		runSession(steps, fresh, r)
+		// the first document of the case under the other invocation routes (go run: every sixth case)
+		if d == 0 {
+			routes := []string{"binary_copy", "binary_relative"}
+			if c.Seed%6 == 0 && *genSrc != "" {
+				routes = append(routes, "go_run")
+			}
+			for i, rt := range routes {
+				rc := ins[i%len(ins)]
+				rc.route = rt
+				runRoute(rc, 1, r)
+			}
+		}
 	}
 }
 
@@ -1799,6 +2166,20 @@ func runBind(c caseT, r *resT) {
 		r.TypeIDs = append(r.TypeIDs, t)
 	}
 	sort.Strings(r.TypeIDs)
+	// the attribute keys the decorations write are keys of the SDK's schema of schemas
+	var src strings.Builder
+	for _, fn := range files {
+		if !strings.HasSuffix(fn, "_test.go") {
+			b, _ := os.ReadFile(fn)
+			src.Write(b)
+		}
+	}
+	for _, k := range attrKeys {
+		if !strings.Contains(src.String(), strconv.Quote(k)) {
+			r.BindError = fmt.Sprintf("attribute key %q written by the decorations is no key in %s/schema", k, c.Repo)
+			return
+		}
+	}
 	mine := append([]string{}, sdkTypeIDs...)
 	sort.Strings(mine)
 	if !reflect.DeepEqual(mine, r.TypeIDs) {
@@ -1833,6 +2214,24 @@ func handle(raw json.RawMessage) any {
 	if c.Style == "" {
 		c.Style = "block"
 	}
+	if c.Deco == "" {
+		c.Deco = "bare"
+	}
+	if c.Route == "" {
+		c.Route = "binary"
+	}
+	known := func(x string, in []string) bool {
+		for _, y := range in {
+			if x == y {
+				return true
+			}
+		}
+		return false
+	}
+	if !known(c.Deco, decoNames) || !known(c.Route, []string{"binary", "binary_copy", "binary_relative", "go_run"}) {
+		r.BindError = fmt.Sprintf("decoration %q / route %q unknown to the driver", c.Deco, c.Route)
+		return r
+	}
 	switch c.Op {
 	case "vec":
 		if e := checkDoc(c.Doc, c.Args); e != "" {
@@ -1860,7 +2259,11 @@ func handle(raw json.RawMessage) any {
 			}
 		}
 		in := inputT{op: "vec", doc: c.Doc, args: c.Args, style: c.Style, runs: c.Runs, shape: c.Shape,
-			sat: *c.Sat, exp: c.Exp}
+			sat: *c.Sat, exp: c.Exp, deco: c.Deco, route: c.Route}
+		if c.Route != "binary" {
+			runRoute(in, 2, r)
+			return r
+		}
 		if c.Prev != nil && c.Prev.Args.Form != "fresh" {
 			// a used directory: it holds the output of prev (the attributes of prev's document are not
 			// used: only its YAML text is rendered)
@@ -1882,15 +2285,20 @@ func handle(raw json.RawMessage) any {
 			return map[string]any{"harness_error": "seq without prev"}
 		}
 		in := inputT{op: "seq", doc: c.Doc, args: c.Args, style: c.Style, runs: 1, shape: shapeOf(c.Doc),
-			sat: satisfiable(c.Doc, c.Args), exp: c.Exp, inp: "seq", prev: c.Prev}
+			sat: satisfiable(c.Doc, c.Args), exp: c.Exp, inp: "seq", prev: c.Prev, deco: c.Deco}
 		runSeq(in, r)
 	case "doc":
 		if e := checkDoc(c.Doc, c.Args); e != "" {
 			r.BindError = e
 			return r
 		}
-		runInput(inputT{op: "doc", doc: c.Doc, args: c.Args, style: c.Style, runs: c.Runs, shape: shapeOf(c.Doc),
-			sat: satisfiable(c.Doc, c.Args), inp: "doc"}, r)
+		in := inputT{op: "doc", doc: c.Doc, args: c.Args, style: c.Style, runs: c.Runs, shape: shapeOf(c.Doc),
+			sat: satisfiable(c.Doc, c.Args), inp: "doc", deco: c.Deco}
+		runInput(in, r)
+		if c.Route != "binary" {
+			in.route = c.Route
+			runRoute(in, 2, r)
+		}
 	case "rand":
 		runRand(c, r)
 	default:
